@@ -1004,8 +1004,12 @@ def transmute_guard(fns, src, nmax, ctfe=False, name=None):
         if kind == 'ret':
             seen.add('ret')
             ex.require(s2, sa == sb, 'transmutes between types of different size', 'end')
-            ex.require(s2, z3.BoolVal(val is A), 'result is not the argument\'s bits', 'end')
-            ex.require(s2, z3.Implies(ULT(J, N), s2.status[A] == LIVE), 'argument dropped although its bits were handed on (double drop later)', 'end')
+            moved = isinstance(val, Arr) and val is not A and val.name.startswith('Moved') and val in s2.status      # a bitwise move (ptr::read of the whole argument) instead of the union
+            ex.require(s2, z3.BoolVal(val is A or moved), 'result is not the argument\'s bits', 'end')
+            owner = val if moved else A
+            ex.require(s2, z3.Implies(ULT(J, N), s2.status[owner] == LIVE), 'argument dropped although its bits were handed on (double drop later)', 'end')
+            if moved:
+                ex.require(s2, z3.Implies(ULT(J, N), s2.status[A] == UNINIT), 'the argument is still dropped by const_transmute although its bits were moved into the result (double drop)', 'end')
         else:
             seen.add('panic')
             ex.require(s2, sa != sb, 'panics although the sizes are equal', 'panic path')
